@@ -33,7 +33,7 @@ def plan(tier, seed):
             "tasks": [], "bounds": {"depth": depth, "menu": [op.name for op in MENU]}, "depth": depth}
 
 
-run = HC.make_run(MENU, use_probes=False, prop="C12")
+run = HC.make_run(MENU, use_probes=True, prop="C12")   # "all translation behaviour exactly as before"
 
 
 def explore(submit, plan, total, tier, seed):
@@ -49,5 +49,5 @@ def replay(case):
     names = [op.name for op in MENU]
     hist = tuple(names.index(n) for n in case["history"])
     r = Result()
-    HC.check_state(MENU, hist, r, False, "C12")
+    HC.check_state(MENU, hist, r, True, "C12")
     return [(sig, v[0]["detail"]) for sig, v in r.viol.items()]
